@@ -385,7 +385,7 @@ def s_set_global_waste_to_doubled_prices : SetterInfo :=
       .write "WASTE_DISTRIBUTION/MILK" (.lit (.num 212 (-2))),
       .write "WASTE_DISTRIBUTION/SEAFOOD" (.lit (.num 17 (-2))),
       .write "WASTE_DISTRIBUTION/SEAWEED" (.lit (.num 17 (-2))),
-      .write "WASTE_RETAIL" (.lit (.num 106 (-1))),
+      .write "WASTE_RETAIL" (.lit (.num 16 0)),
       .setFlag "WASTE_SET"] }
 
 def s_set_global_waste_to_baseline_prices : SetterInfo :=
